@@ -162,6 +162,8 @@ int SimulateMips::run(int max_cycles, int step)
   char instruction[128];
   uint32_t current_pc;
 
+  stop_running = false;
+
   while (stop_running == false)
   {
     current_pc = pc;
